@@ -190,7 +190,20 @@ def form_at_interference(I, n, fr):
     return I.ev(n.args[0], nf)
 
 
-SPEC_FORMS = {"at_interference": form_at_interference, "old": form_old, "forall": form_forall, "exists": form_exists, "implies": form_implies, "iff": form_iff}
+def form_before_interference(I, n, fr):
+    """Evaluate in the heap as it was when the task suspended at the last interfering await, before the other tasks ran."""
+    snap = getattr(I, "pre_interference_snap", None)
+    if snap is None:
+        raise Unsupported("before_interference() without an interfering await on this path")
+    nf = Frame(None, fr.globals, fr)
+    nf.spec = True
+    nf.heap = snap
+    nf.old_heap = getattr(fr, "old_heap", None)
+    nf.new_heap = getattr(fr, "new_heap", None)
+    return I.ev(n.args[0], nf)
+
+
+SPEC_FORMS = {"at_interference": form_at_interference, "before_interference": form_before_interference, "old": form_old, "forall": form_forall, "exists": form_exists, "implies": form_implies, "iff": form_iff}
 
 
 # ----------------------------------------------------------------------------
@@ -480,6 +493,10 @@ def verify_unit(world, func, ct, receiver=None, unit_name=None, setup=None, max_
                 fname = ct.qualname.replace(".__wrapped__", "").rsplit(".", 1)[-1]
                 ob = check_goal(I, z3.BoolVal(False), f"{ct.raises_only_id}/{fname}:{val.cls.name}", "property", unit_name)
                 ob.path = ob.path + [f"raised at line {getattr(val.site, 'lineno', '?')}"]
+                # what other properties say about the pre-states in which an exception the contract does not know may not escape
+                for cl in getattr(ct, "unexpected_exc", ()):
+                    ob = check_goal(I, eval_bool(I, cl.text, env, heap1, heap0), f"{cl.id}/{fname}:{val.cls.name}", cl.tag, unit_name)
+                    ob.path = ob.path + [f"raised at line {getattr(val.site, 'lineno', '?')}"]
                 return outcome
             env2 = dict(env)
             env2["exc"] = val
@@ -774,6 +791,8 @@ def exec_while(I, s, fr):
     if test is not True:
         raise Unsupported("while loop with a non-constant condition")
     head = I.c.heap.snapshot()
+    for name in stored_names(list(s.body)):
+        fr.locals[name] = LOOP_CARRIED  # the iteration executed stands for every iteration: it must not read a local an earlier one left
     try:
         I.block(s.body, fr)
     except BreakSig:
@@ -877,6 +896,9 @@ def exec_symbolic_for(I, s, it, fr):
     # 3. either the loop is finished ...
     if c.branch(done == snapdom, "loop-exit"):
         I.last_done = done
+        # what the loop leaves in the locals it assigns depends on the iterations that ran: not summarised by the contract
+        for name in stored_names([s.target] + list(s.body)):
+            fr.locals[name] = LOOP_CARRIED
         I.block(s.orelse, fr)
         return
     # ... or take one more arbitrary iteration
@@ -886,6 +908,8 @@ def exec_symbolic_for(I, s, it, fr):
     kval = I.wrap(k, kt)
     vval = I.wrap(z3.Select(snapmap, k), vt)
     item = {"dict_items": (kval, vval), "dict_values": vval, "dict_keys": kval}[mode]
+    for name in stored_names(list(s.body)):
+        fr.locals[name] = LOOP_CARRIED  # an earlier iteration may have assigned it: the arbitrary iteration must not read it first
     I.assign(s.target, item, fr)
     I.last_done = done
     iter_start = c.heap.snapshot()
